@@ -53,7 +53,7 @@ Failed(r) ==
            /\ s \cap xm = SyndromeH(H, Op({}, e.z)) \cap xm
            /\ s \cap zm = SyndromeH(H, Op(e.x, {})) \cap zm
       THEN {} ELSE {"syndrome_sectors"})
-\cup (IF \A j \in DOMAIN r.twin : r.twin[j].a = r.twin[j].b THEN {} ELSE {"hash_seed_independent_indexing"})
+\cup (IF \A j \in DOMAIN r.twin : r.twin[j].a = r.twin[j].b THEN {} ELSE {"same_export_in_every_process_and_after_any_history"})
 
 Judged == i = 0 \/ Report(Recs[i].id, Failed(Recs[i]))
 Post == PrintT(<<"CHECKED", TLCGet("distinct") - 1>>)
